@@ -44,7 +44,7 @@ def required_cells(tier):
               'coroutine-part', 'want-placed', 'multi-part', 'unprefixed-string-line', 'comment-only-skipped',
               'verbose:0', 'verbose:3', 'reindent-after-want:less', 'reindent-after-want:more',
               'reindent-after-separator', 'hosted-in-module', 'module-globals-rebound', 'mixed-tabs-and-blanks', 'expected-exception', 'whitespace-only-separator',
-              'blanks-only-continuation-line']
+              'blanks-only-continuation-line', 'two-empty-lines-separator:google', 'two-empty-lines-separator:freeform']
     return cells
 
 
@@ -138,6 +138,8 @@ def _check_layout(ctx, case, stmts, ref, rng, layout, doc, info, verbose, only_c
         if f.startswith('reindent') or f in ('mixed-tabs-and-blanks', 'expected-exception', 'whitespace-only-separator',
                                               'blanks-only-continuation-line'):
             ctx.cell(f)
+        if f == 'two-empty-lines-separator':
+            ctx.cell(f + ':' + layout.wrapper)
     if info['unprefixed']:
         ctx.cell('unprefixed-string-line')
     if any(e[0] == 'exec' and e[2] for e in ev):
